@@ -831,7 +831,9 @@ def nonlinear_roots(f, x0, jac=None, tol=None, verbose=False, maxiter=200, use_s
             x = D.ar_numpy.reshape(x0, (xdim, 1))
     else:
         root, (success, prec, iterations, F) = hybrj(fun, x, fun_jac, tol=tol, verbose=verbose, maxiter=maxiter)
-        success = success or D.ar_numpy.linalg.norm(F) <= D.tol_epsilon(x0.dtype)
+        # hybrj reports the size of its last step, callers are given the residual norm as on the other paths
+        prec = D.ar_numpy.linalg.norm(F)
+        success = success or prec <= D.tol_epsilon(x0.dtype)
         if success:
             x = D.ar_numpy.reshape(root, xshape)
             if var_bounds is not None:
